@@ -38,6 +38,8 @@ extern void frgv_native_assert_fail(const char *msg);
 
 #define FRGV_FNPTR_NONNULL(f) 1   /* the weak hooks frg_panic / frg_log are taken as present */
 
+struct frgv_std_empty { char __empty; };   /* std::index_sequence<...> and similar tag types */
+
 typedef struct { unsigned gp_offset, fp_offset; void *overflow_arg_area, *reg_save_area; } FRGV_VA_LIST_TAG;
 
 /* memory orders, numbered as in <atomic> */
